@@ -169,3 +169,13 @@ func init() {
 	prop("C17", "C17-R5")
 	prop("C12", "C19-R1/txnid") // statements are isolated by transaction id: two statements with one id share locks (seed C12/a)
 }
+
+func init() {
+	prop("C01", "C01-R9")
+	prop("C20", "C01-R9")
+	prop("C10", "C01-R9") // catalog heaps grow the same way
+}
+
+func init() {
+	prop("C01", "C20-R1") // a page that is older than its NewTablePage record must be formatted, redo must not apply a record twice
+}
